@@ -25,6 +25,7 @@ METHODS = [None, 'traditional', 'noconst', 'mean', 'damp', 'nothing']
 LL0, DLL = 3.5, 1.0e-4
 IVAR_SCALE = 100000          # Resample!IvarScale
 BIG = 2000000000
+REC_TYPES = ['f8', 'i8', 'mask-i4', 'i4', 'i2', 'mask-bool', 'u2', 'u1']
 SMALL_EXPONENTS = [-17, -12, -25, -4, -60, -8, -120]      # 1/c^2 stays below float64 overflow (1e308) with margin down to 1e-120
 
 _PAR = '''typedef struct {
@@ -83,6 +84,8 @@ def grid_positions(grid):
 def curve(x, kind, period=40.0, level=10.0):
     if kind == 'const':
         return np.full(x.shape, level, dtype='d')
+    if kind == 'counts':            # integral values (detector counts), for the integer-typed cases
+        return np.round(10.0 * curve(x, 'smooth', period, level))
     return level + 3.0 * np.sin(2.0 * np.pi * x / period) + 2.0 * np.cos(2.0 * np.pi * x / (2.3 * period))
 
 
@@ -132,7 +135,21 @@ def as_variant(a, variant, readonly_ok=True, flip=False):
     return a
 
 
-def run_call(inll, flux, newll, ivar, method, variant='plain', noiseless=True):
+# Numeric types of the same VALUES: integral flux / inverse variance / masks are also handed over with an integer dtype.
+NUMTYPES = ['f8', 'i8', 'i4', 'i2', 'u2', 'u1']
+INT_SCALARS = [int, np.int64, np.int32, np.int16, np.uint16]       # 8-bit numpy scalars for nord fail loudly (wrap-around inside bspline): not in the statement
+
+
+def as_type(a, t):
+    """`a` with dtype t when that keeps every value (integral and in range), else unchanged."""
+    if a is None or t == 'f8':
+        return a
+    with np.errstate(all='ignore'):
+        b = np.asarray(a).astype(bool if t == 'bool' else t)
+    return b if np.array_equal(b.astype('d'), np.asarray(a, dtype='d')) else a
+
+
+def run_call(inll, flux, newll, ivar, method, variant='plain', noiseless=True, numtype='f8', ivartype=None):
     """One real call; never lets the caller's arrays be modified.  Returns (flux, ivar, exception text).
     variant: memory layout of the arguments.  A read-only objivar is only handed over when nothing has to be written into
     it: 1-D and noiseless (the 2-D branch median-smooths the caller's objivar in place, rejected outliers are zeroed in it)."""
@@ -140,8 +157,12 @@ def run_call(inll, flux, newll, ivar, method, variant='plain', noiseless=True):
     kw = {}
     if method is not None:
         kw['aesthetics'] = method
+    flux = as_type(flux, numtype)
     if ivar is not None:
+        ivar = as_type(ivar, ivartype or numtype)
         kw['objivar'] = as_variant(ivar, variant, readonly_ok=(ivar.ndim == 1 and noiseless), flip=bool(ivar.size % 2))
+    if numtype != 'f8':         # integer scalar where a scalar is admitted (the default order of the spline)
+        kw['nord'] = INT_SCALARS[flux.size % len(INT_SCALARS)](3)
     if variant == 'zerod':
         kw['binsz'] = np.array(inll.flat[1] - inll.flat[0])      # 0-d array where a scalar is admitted (the default value)
     flip = bool(inll.size % 2)
@@ -233,7 +254,7 @@ def mc_arrays(case, fluxkind):
     if case['iv']:
         ivs = [np.array([float(frac(q)) for q in case['iv']], dtype='d')]
     else:
-        cyc = [1.0, 0.5, 2.0]
+        cyc = [1.0, 3.0, 2.0]
         ivs = [np.array([cyc[(k + 2 * e) % 3] if g else 0.0 for k, g in enumerate(good)], dtype='d')
                for e, (good, _) in enumerate(exps)]
     return concretise(exps, case['grid'], ivs, fluxkind)
@@ -249,11 +270,14 @@ def describe_exposure(e):
     return txt if e['sh'][0] == 0 else '%s offset %s' % (txt, '/'.join(map(str, e['sh'])) if e['sh'][1] != 1 else e['sh'][0])
 
 
-def mc_run_one(ctx, rep, case, method, use_ivar, fluxkind, stats, variant='plain'):
+def mc_run_one(ctx, rep, case, method, use_ivar, fluxkind, stats, variant='plain', numtype='f8'):
     """Execute one call of a TLC case and judge it; returns True if it conforms."""
+    if numtype != 'f8' and fluxkind == 'smooth':
+        fluxkind = 'counts'
     inll, flux, ivar, newll = mc_arrays(case, fluxkind)
-    f, v, exc = run_call(inll, flux, newll, ivar if use_ivar else None, method, variant)
+    f, v, exc = run_call(inll, flux, newll, ivar if use_ivar else None, method, variant, numtype=numtype)
     stats['variant_' + variant] += 1
+    stats['numtype_' + numtype] += 1
     mz = set(case['mz'])
     ivx = [float(frac(q)) for q in case['ivx']] if (case['ivx'] and use_ivar) else None
     probs = judge(f, v, exc, case['grid']['count'], mz, ivx)
@@ -270,10 +294,10 @@ def mc_run_one(ctx, rep, case, method, use_ivar, fluxkind, stats, variant='plain
             ctx.nontriv((case['family'], case['pat'], case['pat2'], case['g']))
     for clause, detail in probs:
         no_good_out = v is not None and not (v > 0).any()
-        call = dict(case, method=method, use_ivar=use_ivar, flux=fluxkind, variant=variant)
-        call['what'] = ('combine1fiber on pattern %s -> grid %s (aesthetics=%s, objivar %s, %s arrays): %s: %s' % (
+        call = dict(case, method=method, use_ivar=use_ivar, flux=fluxkind, variant=variant, numtype=numtype)
+        call['what'] = ('combine1fiber on pattern %s -> grid %s (aesthetics=%s, objivar %s, %s %s arrays): %s: %s' % (
             '+'.join(describe_exposure(e) for e in case['exps']),
-            case['grid'], method, 'given' if use_ivar else 'absent', variant, clause, detail))
+            case['grid'], method, 'given' if use_ivar else 'absent', variant, numtype, clause, detail))
         call['clause'] = clause
         rep.report('replay-' + case['family'], clause, call, classify(clause, detail, method, use_ivar, no_good_out))
     return not probs
@@ -283,7 +307,7 @@ def run_mc(ctx, rep):
     cfg = 'MC_Resample_quick.cfg' if ctx.quick else 'MC_Resample_thorough.cfg'
     r = ctx.tlc('MC_Resample.tla', cfg, dump=True, timeout=1500)
     rng = random.Random(ctx.seed)
-    keep_single = 0.25 if ctx.quick else 1.0
+    keep_single = 0.2 if ctx.quick else 1.0
     keep_stack = 0.07 if ctx.quick else 0.15       # 2-D calls on >= 105-pixel exposures cost ~0.1 s each
     stats = collections.Counter()
     n = 0
@@ -310,15 +334,17 @@ def run_mc(ctx, rep):
         fluxkind = 'smooth' if n % 2 else 'const'
         method = METHODS[n % len(METHODS)]
         variant = VARIANTS[(n + ctx.seed) % len(VARIANTS)]      # layout variants rotate over the cases, by seed
-        good = mc_run_one(ctx, rep, case, method, True, fluxkind, stats, variant)
+        numtype = NUMTYPES[(n // len(VARIANTS) + ctx.seed) % len(NUMTYPES)]      # ... and so do the numeric types
+        good = mc_run_one(ctx, rep, case, method, True, fluxkind, stats, variant, numtype)
         allgood = len(case['exps']) == 1 and '0' not in case['exps'][0]['good']
         if allgood:
             for m in METHODS:       # without inverse variance: every pixel has unit weight
-                mc_run_one(ctx, rep, case, m, False, fluxkind, stats, variant)
+                mc_run_one(ctx, rep, case, m, False, fluxkind, stats, variant, numtype)
         if n % 11 == 0 and kind not in ('pairinfl', 'stack', 'edge'):
             for m in METHODS:
                 if m != method:
-                    mc_run_one(ctx, rep, case, m, True, fluxkind, stats, VARIANTS[(n // 11 + METHODS.index(m)) % len(VARIANTS)])
+                    mc_run_one(ctx, rep, case, m, True, fluxkind, stats, VARIANTS[(n // 11 + METHODS.index(m)) % len(VARIANTS)],
+                                   NUMTYPES[(n // 11 + 2 * METHODS.index(m)) % len(NUMTYPES)])
         if sampled < 3 and good and case['mz'] and len(case['mz']) < case['grid']['count'] and kind != 'single':
             sampled += 1
             ctx.sample({'tlc_case': {'family': case['family'], 'pattern': case['pat'], 'block': len(case['exps'][0]['good']),
@@ -429,14 +455,25 @@ def item_resample(sub, quick):
     nprng = np.random.default_rng(sub)
     noise = [nprng.standard_normal(n) for _ in range(nexp)]
     exps = [(tuple(bool(x > 0) for x in ivs[e]), shifts[e]) for e in range(nexp)]
+    # numeric type: float64, or integer counts with integer inverse variance, or a 0/1 good-pixel mask (int / bool) as weights
+    rtype = REC_TYPES[(sub // len(VARIANTS)) % len(REC_TYPES)] if use_ivar else 'f8'
+    if rtype == 'mask-bool' and nexp > 1:
+        rtype = 'mask-u1'        # a bool objivar is not an inverse variance the 2-D branch can median-smooth (see assumptions)
+    if rtype.startswith('mask'):
+        ivs = [(iv > 0).astype(np.int64) for iv in ivs]
+    if rtype != 'f8':
+        q = 1
     inll, flux, ivar, newll = concretise(exps, grid, [iv / float(q) for iv in ivs], 'smooth',
                                          period=rng.choice([40.0, 75.0, 130.0]), noise=noise)
-    garbage = use_ivar and rng.random() < 0.15
+    garbage = use_ivar and rtype == 'f8' and rng.random() < 0.15
     if garbage:        # masked pixels of real data hold arbitrary values
         flux = np.where(ivar > 0, flux, rng.choice([float('nan'), float('inf'), -1.0e30]))
+    if rtype != 'f8':
+        flux = np.round(10.0 * flux)          # counts
     variant = VARIANTS[sub % len(VARIANTS)]
-    f, v, exc = run_call(inll, flux, newll, ivar if use_ivar else None, method, variant, noiseless=False)
-    desc = {'kind': 'resample', 'sub': sub, 'garbage_under_mask': garbage, 'variant': variant, 'quick': quick, 'n': n, 'nexp': nexp, 'grid': grid, 'gridkind': gkind, 'method': method,
+    f, v, exc = run_call(inll, flux, newll, ivar if use_ivar else None, method, variant, noiseless=False,
+                         numtype=('i4' if rtype.startswith('mask') else rtype), ivartype=(rtype[5:] if rtype.startswith('mask') else None))
+    desc = {'kind': 'resample', 'sub': sub, 'garbage_under_mask': garbage, 'variant': variant, 'numtype': rtype, 'quick': quick, 'n': n, 'nexp': nexp, 'grid': grid, 'gridkind': gkind, 'method': method,
             'use_ivar': use_ivar, 'shifts': [[s.numerator, s.denominator] for s in shifts]}
     if exc:
         return None, desc, ('raised', exc), None
@@ -472,9 +509,9 @@ def item_law(sub, quick):
     desc = {'kind': 'law', 'sub': sub, 'quick': quick, 'n': n, 'nexp': nexp, 'period': period, 'variant': variant}
     recs, errs = [], []
 
-    def call(grid, kind, ivl, method, level=10.0, mult=1.0):
+    def call(grid, kind, ivl, method, level=10.0, mult=1.0, numtype='f8'):
         inll, flux, ivar, newll = concretise(exps, grid, ivl, kind, period=float(period), level=level)
-        return run_call(inll, flux * mult, newll, ivar, method, variant)
+        return run_call(inll, flux * mult, newll, ivar, method, variant, numtype=numtype)
 
     # physical units: the same spectrum expressed in units 10^uexp times smaller (flux * u, ivar / u^2), e.g. SDSS
     # 1e-17 erg/s/cm^2/A written out in cgs.  Cycled deterministically so that every run holds small units.
@@ -487,42 +524,66 @@ def item_law(sub, quick):
     for shift in ([Fraction(0)] if nexp > 1 else [Fraction(0), rng.choice([Fraction(1, 2), Fraction(1, 3), Fraction(3, 4)])]):
         grid = {'start': [shift.numerator, shift.denominator], 'step': [1, 1], 'count': n}
         m = rng.choice(plain)
-        f, v, exc = call(grid, 'smooth', ivs_u, m, mult=u)
+        # every other plain-unit item with a short period: the spectrum as integer counts (1000 x the curve, rounded: the rounding
+        # is 100 ppm of the amplitude, well inside the identity tolerance for periods <= 60) with integer inverse variance
+        itype = ['i8', 'i4', 'i2', 'u2'][(sub // 4) % 4] if (uexp == 0 and period <= 60 and nexp == 1 and (sub // 2) % 2 == 0) else 'f8'
+        if itype != 'f8':
+            inll, flux, ivar, newll = concretise(exps, grid, [iv * 4.0 for iv in ivs], 'smooth', period=float(period))
+            f, v, exc = run_call(inll, np.round(1000.0 * flux), newll, ivar, m, variant, numtype=itype)
+            u_id = 1000.0
+        else:
+            f, v, exc = call(grid, 'smooth', ivs_u, m, mult=u)
+            u_id = u
         if exc:
             errs.append(('identity', m, exc))
             continue
         truth = curve(np.array([float(p) for p in grid_positions(grid)]), 'smooth', float(period))
         g = v > 0
-        dev = float(np.abs(f / u - truth)[g].max()) / AMPL if g.any() else 0.0
+        dev = float(np.abs(f / u_id - truth)[g].max()) / AMPL if g.any() else 0.0
         recs.append({'kind': 'law', 'law': 'identity', 'period': period, 'devppm': scaled(dev, 1e6), 'ngood': int(g.sum()), 'unit_exp10': uexp,
+                     'numtype': itype,
                      'shift': [shift.numerator, shift.denominator], 'method': m or 'default', 'nexp': nexp})
     # a constant spectrum stays constant
     grid, _ = random_grid(rng, n)
     level = rng.choice([0.5, 2.5, 7.3, 50.0])
     m = rng.choice(plain)
-    f, v, exc = call(grid, 'const', ivs_u, m, level=level, mult=u)
+    numtype = NUMTYPES[(sub // 2) % len(NUMTYPES)] if uexp == 0 else 'f8'
+    if numtype != 'f8':          # integer counts with integer inverse variance
+        level = 50.0
+        f, v, exc = call(grid, 'const', [iv * 4.0 for iv in ivs], m, level=level, numtype=numtype)
+    else:
+        f, v, exc = call(grid, 'const', ivs_u, m, level=level, mult=u)
     if exc:
         errs.append(('const', m, exc))
     else:
         g = v > 0
         dev = float(np.abs(f / u - level)[g].max()) / level if g.any() else 0.0
         recs.append({'kind': 'law', 'law': 'const', 'devppb': scaled(dev, 1e9), 'ngood': int(g.sum()), 'method': m or 'default', 'unit_exp10': uexp,
+                     'numtype': numtype,
                      'nexp': nexp})
     # aesthetics() called directly: the same values in another memory layout give the same cleaned-up spectrum
-    if variant != 'plain':
+    atype = NUMTYPES[(sub // 5) % len(NUMTYPES)]
+    if variant != 'plain' or atype != 'f8':
         from pydl.pydlspec2d.spec2d import aesthetics
-        fl = curve(np.arange(n, dtype='d'), 'smooth', float(period))
+        fl = curve(np.arange(n, dtype='d'), 'smooth' if atype == 'f8' else 'counts', float(period))
+        aiv = ivs[0] if atype == 'f8' else ivs[0] * 4.0
         for m in METHODS[1:]:
+            if m == 'mean' and atype != 'f8':
+                # aesthetics(integer flux, 'mean') fills the masked pixels with the TRUNCATED mean (flux.copy() keeps the integer
+                # dtype).  combine1fiber always hands aesthetics a floating spectrum, so the statement does not cover it: noted only.
+                desc['aesthetics_mean_integer_flux_not_covered'] = True
+                continue
             try:
                 with warnings.catch_warnings(), np.errstate(all='ignore'):
                     warnings.simplefilter('ignore')
-                    ref = np.asarray(aesthetics(fl.copy(), ivs[0].copy(), m))
-                    got = np.asarray(aesthetics(as_variant(fl, variant), as_variant(ivs[0], variant), m))
+                    ref = np.asarray(aesthetics(fl.copy(), aiv.copy(), m))
+                    got = np.asarray(aesthetics(as_variant(as_type(fl, atype), variant), as_variant(as_type(aiv, atype), variant), m))
                 same = got.shape == ref.shape and bool(np.isfinite(got).all())
                 dev = float(np.abs(got - ref).max() / np.abs(ref).max()) if same else float('inf')
-                recs.append({'kind': 'law', 'law': 'layout', 'fn': 'aesthetics', 'devppb': scaled(dev, 1e9), 'method': m, 'variant': variant})
+                recs.append({'kind': 'law', 'law': 'layout', 'fn': 'aesthetics', 'devppb': scaled(dev, 1e9), 'method': m, 'variant': variant,
+                             'numtype': atype})
             except Exception as ex:
-                errs.append(('layout', m, 'aesthetics(%s arrays): %s: %s' % (variant, type(ex).__name__, str(ex)[:120])))
+                errs.append(('layout', m, 'aesthetics(%s %s arrays): %s: %s' % (variant, atype, type(ex).__name__, str(ex)[:120])))
     # scaling (single exposure: the 2-D branch smooths the variance before the fit, the law is the same but costly)
     if nexp == 1:
         grid, _ = random_grid(rng, n)
@@ -560,9 +621,11 @@ def item_shift(sub, quick):
     mode = ['given', 'given-offset', 'derived'][sub % 3]            # all (mode, loglam shape) combinations every 6 items
     off = rng.randrange(-40, 40) if mode == 'given-offset' else 0
     ncount = n + 60 if mode == 'given-offset' else n
+    stype = NUMTYPES[(sub // 2) % len(NUMTYPES)]
+    zero_z = stype != 'f8' and sub % 4 < 2          # zfit = 0 given as an integer array (the only integral redshift)
     m = []
     for k in k0:        # whole-pixel redshifts that keep the feature at least 15 pixels inside the output grid
-        mm = rng.randrange(-60, 90)
+        mm = 0 if zero_z else rng.randrange(-60, 90)
         while not (15 <= k - mm - off <= ncount - 16):
             mm = rng.randrange(-60, 90)
         m.append(mm)
@@ -572,8 +635,13 @@ def item_shift(sub, quick):
         iv = random_iv(rng, n)
         iv[max(0, k0[i] - 25):k0[i] + 26] = 4      # the feature itself is well measured
         ivar[i] = iv / 4.0
+    if stype != 'f8':           # integer counts, integer inverse variance
+        flux = as_type(np.round(100.0 * flux), 'i4' if stype in ('i2', 'u1') else stype)
+        ivar = as_type(ivar * 4.0, stype)
     ll = LL0 + DLL * (x + o1)
     z = np.array([10.0 ** (DLL * mm) - 1.0 for mm in m])
+    if zero_z:
+        z = np.zeros(nobj, dtype=stype)
     two_d = (sub // 3) % 2 == 1
     kw = {}
     if mode == 'given':
@@ -583,11 +651,15 @@ def item_shift(sub, quick):
     aes = rng.choice(['mean', 'traditional', 'noconst', 'nothing'])
     variant = VARIANTS[sub % len(VARIANTS)]
     if variant == 'zerod' and mode == 'derived':      # 0-d arrays where scalars are admitted; far outside the data, so without effect
-        kw['wavemin'] = np.array(10.0 ** (LL0 + DLL * (o1 - 500)))
-        kw['wavemax'] = np.array(10.0 ** (LL0 + DLL * (o1 + n + 500)))
+        if sub % 2:
+            kw['wavemin'] = np.array(10.0 ** (LL0 + DLL * (o1 - 500)))
+            kw['wavemax'] = np.array(10.0 ** (LL0 + DLL * (o1 + n + 500)))
+        else:                                          # Python / numpy integers where scalars are admitted
+            kw['wavemin'] = 1
+            kw['wavemax'] = np.int64(10000000)
     if 'newloglam' in kw:
         kw['newloglam'] = as_variant(kw['newloglam'], variant)
-    desc = {'kind': 'shift', 'sub': sub, 'quick': quick, 'variant': variant, 'nobj': nobj, 'n': n, 'k0': k0, 'm': m, 'o1': o1, 'mode': mode, 'aesthetics': aes,
+    desc = {'kind': 'shift', 'sub': sub, 'quick': quick, 'variant': variant, 'numtype': stype, 'zfit_integer_zero': zero_z, 'nobj': nobj, 'n': n, 'k0': k0, 'm': m, 'o1': o1, 'mode': mode, 'aesthetics': aes,
             'loglam2d': two_d}
     try:
         with warnings.catch_warnings(), np.errstate(all='ignore'):
@@ -633,6 +705,56 @@ def judge_records(ctx, records, label, chunk=150):
     return bad
 
 
+def falsify(rec, k):
+    """One observed field of an accepted record changed beyond tolerance (None if this record offers nothing to change)."""
+    r = dict(rec)
+    if rec['kind'] == 'resample':
+        mode = k % 5
+        lo = min(Fraction(*e['sh']) for e in rec['exps'])
+        hi = max(Fraction(*e['sh']) + len(e['iv']) - 1 for e in rec['exps'])
+        pos = grid_positions(rec['grid'])
+        outside = [j for j, p in enumerate(pos) if (p < lo or p > hi) and rec['nz'][j] == 0]
+        nonzero = [j for j in range(len(pos)) if rec['nz'][j] == 1]
+        if mode == 0 and outside:               # weight reported on an output pixel beyond every exposure
+            j = outside[k % len(outside)]
+            r['nz'] = list(rec['nz'])
+            r['out'] = list(rec['out'])
+            r['nz'][j], r['out'][j] = 1, IVAR_SCALE
+        elif mode == 1 and rec['interp'] and nonzero:      # an inverse variance that is not the interpolated one
+            j = nonzero[k % len(nonzero)]
+            r['out'] = list(rec['out'])
+            r['out'][j] += 1000
+        elif mode == 2:
+            r['finite'] = False
+        elif mode == 3:
+            r['nonneg'] = False
+        else:
+            r['nivar'] = rec['nivar'] - 1
+        return r
+    law = rec['law']
+    if law == 'identity':
+        r['devppm'] = BIG
+    elif law in ('const', 'layout'):
+        r['devppb'] = BIG
+    elif law == 'scale':
+        r[['zerodiff', 'fluxppb', 'ivarppb'][k % 3]] = BIG if k % 3 else 1
+    elif law == 'shift':
+        if k % 2:
+            r['kout'] = rec['kout'] + (1 if k % 4 == 1 else -1)
+        else:
+            r['residmilli'] = 1000
+    else:
+        return None
+    return r
+
+
+def selftest(ctx, accepted):
+    """Binding self-test: every accepted record with one falsified observed field must be rejected by the same verdicts."""
+    fals = [f for f in (falsify(rec, k) for k, rec in enumerate(accepted[:300])) if f is not None]
+    if fals:
+        core.binding_selftest(ctx, 'Trace_ResampleSelf', fals, 'recorded_calls')
+
+
 def run_trace(ctx, rep):
     n_res, n_law, n_shift = (36, 10, 8) if ctx.quick else (450, 120, 90)
     records, meta = [], []
@@ -642,8 +764,8 @@ def run_trace(ctx, rep):
         ctx.evaluated(1, 'recorded-resample')
         ctx.validated()
         if err:
-            desc['what'] = 'combine1fiber on a %d-pixel spectrum (%d exposure(s), grid %s, aesthetics=%s, objivar %s, %s arrays) %s: %s' % (
-                desc['n'], desc['nexp'], desc['gridkind'], desc['method'], 'given' if desc['use_ivar'] else 'absent', desc['variant'],
+            desc['what'] = 'combine1fiber on a %d-pixel spectrum (%d exposure(s), grid %s, aesthetics=%s, objivar %s, %s %s arrays) %s: %s' % (
+                desc['n'], desc['nexp'], desc['gridkind'], desc['method'], 'given' if desc['use_ivar'] else 'absent', desc['variant'], desc['numtype'],
                 err[0], err[1])
             rep.report('recorded-resample', err[0], desc, classify(err[0], err[1], desc['method'], desc['use_ivar'], False))
             continue
@@ -677,8 +799,8 @@ def run_trace(ctx, rep):
             ctx.nontriv(('shift', sub, r['k0'], r['m']))
         for law, m, exc in errs:
             d = dict(desc, law=law)
-            d['what'] = 'preprocess_spectra(%d objects x %d pixels, aesthetics=%s, newloglam %s, %s arrays) raised %s' % (
-                desc['nobj'], desc['n'], m, desc['mode'], desc['variant'], exc)
+            d['what'] = 'preprocess_spectra(%d objects x %d pixels, aesthetics=%s, newloglam %s, %s %s arrays) raised %s' % (
+                desc['nobj'], desc['n'], m, desc['mode'], desc['variant'], desc['numtype'], exc)
             ctx.evaluated(1, 'law-shift')
             known = ('D-C11-5' if desc['mode'] == 'derived' and desc['loglam2d'] and exc.startswith(('TypeError: only 0-dimensional', 'IndexError: index 1 is out of bounds'))
                      else classify('raised', exc, m, True, False))
@@ -710,6 +832,7 @@ def run_trace(ctx, rep):
             d['clause'] = 'nonfinite'
             rep.report('recorded-shift', 'nonfinite', d)
     ok = [k for k in range(len(records)) if k not in bad]
+    selftest(ctx, [records[k] for k in ok])
     for k in ok[:1]:
         ctx.sample({'recorded_call': meta[k]})
     for k in ok:
@@ -740,6 +863,19 @@ def run(ctx):
         'overflow (1e308), larger c because the function compares the smoothed inverse variance with an absolute float32 eps',
         'the "edge" family and 40 % of the recorded stacks put exactly 101, 102 or 103 good pixels into an exposure (the lower edge of '
         'the stated domain "at least 101 good pixels each")',
+        'numeric types: integral flux (counts), integral inverse variance and 0/1 good-pixel masks (int32, uint8, bool) are also handed '
+        'over as int64 / int32 / int16 / uint16 / uint8 (as the values fit), nord / wavemin / wavemax as Python and numpy integers, zfit = 0 '
+        'as an integer array, rotated over the cases like the layouts; expectations are TLC\'s for the values.  Not covered: (a) an '
+        'integer-typed inloglam / newloglam - a sampled log-wavelength grid is never integral, and the unchanged code refuses it loudly '
+        '(UFuncTypeError / "Grouping tricks did not work!"), which is also why the reverted bspline integer-abscissa fixes (be0af88, 7239a84) '
+        'are unreachable through combine1fiber; (b) a bool objivar for a 2-D stack (ValueError from medfilt: a bool array is not an inverse '
+        'variance that can be median-smoothed); (c) aesthetics() called directly with integer flux and method "mean" (truncated fill value; '
+        'combine1fiber always hands it a floating spectrum); (d) float32 log-wavelengths (positions are then not exact rationals)',
+        'the statement is about the returned flux / inverse variance and does not promise that the inputs are left untouched: combine1fiber '
+        'zeroes rejected pixels in the caller\'s objivar and the 2-D branch median-smooths it in place; the harness always passes copies',
+        'an output pixel within float32 eps (1.2e-7 pixel, 1.2e-11 dex) of a good input pixel is treated by the function as lying ON that '
+        'pixel (smask >= 1 - EPS) and then carries its inverse variance even if both neighbours are bad: the same open boundary case as exact '
+        'coincidence (Resample!OnGood); grids 15/16 (shifted by +-1e-6 pixel) pin the tolerance: there the inverse variance must be 0 and is',
         'memory layout: every argument array is also handed over read-only, as a non-contiguous view (strided / Fortran order), '
         'byte-swapped, and binsz / wavemin / wavemax as 0-d arrays, rotated over the cases by seed; expectations are TLC\'s for the values. '
         'A read-only objivar is used only for 1-D noiseless input: the 2-D branch median-smooths the caller\'s objivar in place and '
@@ -765,7 +901,7 @@ def replay(ctx, case):
     if 'family' in case:
         stats = collections.Counter()
         ok = mc_run_one(ctx, rep, case, case.get('method'), case.get('use_ivar', True), case.get('flux', 'smooth'), stats,
-                        case.get('variant', 'plain'))
+                        case.get('variant', 'plain'), case.get('numtype', 'f8'))
         print('replayed TLC case %s pattern %d grid %s aesthetics=%s: %s' % (case['family'], case['pat'], case['grid'], case.get('method'),
                                                                              'conforms' if ok else 'VIOLATES'))
         return
